@@ -9,7 +9,7 @@ from .scenarios import expected_semantics, services_for
 
 from dznpy.adv_shell.common import FacilitiesOrigin
 
-RES = {'Ok': 0, 'Nok': 1, 'Busy': 2}
+RES = {name: i for i, name in enumerate(fam.RES_FIELDS)}
 
 
 def _services_bool(origin) -> Dict[str, bool]:
@@ -117,7 +117,7 @@ def judge_block(step: Dict, blk: Dict) -> List[str]:
 
 
 def run_mc_history(info, pc, prog_dir: str, pre: Optional[str], op: str, actor: Optional[str],
-                   clients: List[str]) -> Tuple[Dict[str, List[str]], str]:
+                   clients: List[str], claim_reply: Optional[int] = None) -> Tuple[Dict[str, List[str]], str]:
     """Run [pre claims (granted)] ; op ; every component out-event.  -> {out-event: [sides delivered]}"""
     origin = info['case'].origin
     mc = pc.multiclient
@@ -140,7 +140,11 @@ def run_mc_history(info, pc, prog_dir: str, pre: Optional[str], op: str, actor: 
         holder = pre
     if op == 'claim':
         granted = holder is None or holder == actor
-        sc.lines.append(f'    g_replies.push_back({grant if granted else refuse});')
+        reply_value = grant if granted else refuse
+        if claim_reply is not None:           # the solver's witness value for the component's reply
+            reply_value = claim_reply
+            granted = claim_reply == grant
+        sc.lines.append(f'    g_replies.push_back({reply_value});')
         sc.invoke(f'{sc.accessor_expr(prt, actor)}.in.{claim.name}', claim, f'claim@{actor}', itf_t)
         if granted:
             holder = actor
@@ -158,8 +162,17 @@ def run_mc_history(info, pc, prog_dir: str, pre: Optional[str], op: str, actor: 
     if rc == 2:
         return {'__error__': [out[:400]]}, out
     blocks = D.parse_trace(out)[1:]
-    res = {'__holder__': [str(holder)]}
+    res = {'__holder__': [str(holder)], '__step_findings__': []}
     for blk in blocks:
+        # the routing / integrity oracle on the step itself (claim / release / other in-event)
+        if blk['tag'].split('@')[0] in ('claim', 'release', 'other'):
+            ev_name = {'claim': claim.name, 'release': release.name}.get(blk['tag'].split('@')[0])
+            if ev_name is None:
+                ev_name = op.split(':', 1)[1]
+            ev_obj = next(e for e in itf.events if e.name == ev_name)
+            step = {'prt': prt, 'ev': ev_obj, 'tag': f'{prt.name}.in.{ev_name}@{actor}', 'sem': 'MTS',
+                    'inbound': True, 'expect_side': 'comp'}
+            res['__step_findings__'] += judge_block(step, blk)
         if blk['tag'].startswith('out.'):
             res[blk['tag'][4:]] = [c['side'] for c in blk['calls']]
         else:
@@ -182,9 +195,8 @@ def run_facilities(info, pc, prog_dir: str, has_pump: bool, has_rt: bool, has_ot
         L.append('    std::cout << "ENC_LOCATOR_IS_OWN " << (&g_enc(shell).dzn_locator == &shell.Locator()) << std::endl;')
         L.append('    std::cout << "OWN_PUMP " << (shell.Locator().try_get<dzn::pump>() == &shell.m_dispatcher) << std::endl;')
         L.append('    std::cout << "OWN_RUNTIME " << (shell.Locator().try_get<dzn::runtime>() == &shell.m_runtime) << std::endl;')
-        L.append('    std::cout << "OTHER_CARRIED " << ((shell.Locator().try_get<OtherService>() == &other) == '
-                 + ('true' if has_other else 'false') + ' || (shell.Locator().try_get<OtherService>() == nullptr) == '
-                 + ('false' if has_other else 'true') + ') << std::endl;')
+        L.append('    std::cout << "OTHER_CARRIED " << (shell.Locator().try_get<OtherService>() == '
+                 + ('&other' if has_other else 'nullptr') + ') << std::endl;')
         L.append('    std::cout << "PUMP_IS_USER " << (&shell.m_dispatcher == &userPump) << std::endl;')
     else:
         L.append('    std::cout << "PUMP_IS_USER " << (&shell.m_dispatcher == &userPump) << std::endl;')
@@ -278,8 +290,9 @@ def run_final_construct(info, pc, prog_dir: str, unbound: List[str]) -> Tuple[st
             else:
                 name = f'comp:{prt.name}.{ev.direction}.{ev.name}'
                 if name in skip:
+                    sc.lines.append(f'    g_enc(shell).{prt.name}.{ev.direction}.{ev.name} = nullptr;')
                     continue
-                sc.lines.append(f'    g_enc(shell).{prt.name}.{ev.direction}.{ev.name} = '
+                sc.lines.append(f'    g_enc(shell).hook_{prt.name}_{ev.direction}_{ev.name} = '
                                 f'{sc.handler("comp", prt, ev)};')
     sc.lines.append('    static dzn::meta parentMeta;')
     sc.lines.append('    try { shell.FinalConstruct(&parentMeta); std::cout << "FINAL ok" << std::endl; }')
